@@ -172,7 +172,7 @@ def check(prog, res, tier):
         ft, pt, vk = partition(p)
         fails = []
         for e in p.evs('codec'):
-            if e.func != fi.short:
+            if not e.under(fi.short):
                 continue
             c = e.data['codec']
             if not (isinstance(c, SymV) and c.name == 'encoding'):
@@ -216,7 +216,7 @@ def check(prog, res, tier):
             if not isinstance(head.node, ast.For):
                 continue
             sets = [e for e in p.events if first < e.seq < last and e.kind == 'setitem' and isinstance(e.data['obj'], ListV)
-                    and e.func == dfi.short]
+                    and e.under(dfi.short)]
             calls = [x for x in it.user.get('elements', []) if first < x[3] < last]
             li = [e for e in p.events if e.kind == 'loop-iter' and first <= e.seq < last and e.node is head.node]
             bit = li[-1].data.get('elem') if li else None
@@ -277,7 +277,7 @@ def check(prog, res, tier):
         fails = []
         st = p.store
         for e in p.events:
-            if e.kind == 'for-iter' and e.func == dfi.short and isinstance(e.data['iterable'], RangeV):
+            if e.kind == 'for-iter' and e.under(dfi.short) and isinstance(e.data['iterable'], RangeV):
                 r = e.data['iterable']
                 fails += need_eq0(st, Lin.of(r.lo) - 2, f'element loop starts at {r.lo}, not 2', e.node)
                 fails += need_eq0(st, Lin.of(r.hi) - 128, f'element loop ends before {r.hi}, not 128 (elements 2..127)', e.node)
@@ -352,7 +352,7 @@ def presence_ob(prog, res, dfi):
                 continue
             emitted = [x for x in p.interp.user.get('emitted', []) if first < x < last]
             bits = [e for e in p.events if first < e.seq < last and e.kind == 'setitem' and isinstance(e.data['obj'], ListV)
-                    and e.func == dfi.short]
+                    and e.under(dfi.short)]
             want = probe in ('int0', 'dec0')
             label = {'int0': 'the integer 0', 'dec0': 'a zero Decimal', 'none': 'an absent value (None)', 'empty': 'an empty string'}[probe]
             if want and not (emitted and bits):
@@ -383,7 +383,7 @@ def icc_tag_ob(prog, res):
         for e in p.events:
             if e.seq <= first or (last is not None and e.seq >= last):
                 continue
-            if e.kind == 'setitem' and e.func == fi.short and isinstance(e.data['key'], SeqV) and e.data['key'].segs \
+            if e.kind == 'setitem' and e.under(fi.short) and isinstance(e.data['key'], SeqV) and e.data['key'].segs \
                     and isinstance(e.data['key'].segs[0], Lit) and str(e.data['key'].segs[0].data).startswith('TAG'):
                 yield e
 
